@@ -334,6 +334,34 @@ func init() {
 					}
 				}
 			}
+			if *what == "fault" {
+				// interior nodes that cover more than 2 MiB each (400 chunks of 16 KiB under the default width: three
+				// interior nodes of 174 / 174 / 52 leaves): with one of them unavailable a sequential read delivers exactly
+				// the bytes before its span and then the error
+				sh := shape{400, 174, 16384, 16384}
+				st := NewStore()
+				root, _, err := buildFileCase(st, sh.fileCase("probe"), makeContent("distinct", sh.length(), 0))
+				if err != nil {
+					return err
+				}
+				fw, err := walkFile(st, root)
+				if err != nil {
+					return err
+				}
+				for _, b := range fw.Blocks {
+					if b.Leaf || b.C == 1 {
+						continue
+					}
+					for _, open := range []string{"direct", "reify"} {
+						fc := sh.fileCase(fmt.Sprintf("fault-big-400-m%d-%s", b.C, open))
+						fc.Open, fc.Mode, fc.Missing, fc.NotFound = open, "fault", []int{b.C}, b.C%2 == 0
+						fc.Script = [][]any{{"open", 1}, {"readall", 1, 1 << 20}, {"heal"}, {"readall", 1, 1 << 20}}
+						if err := runFileCase(fc, tr); err != nil {
+							return err
+						}
+					}
+				}
+			}
 		case "writers":
 			for _, wr := range boxoWriters {
 				for _, sh := range shs {
